@@ -8,7 +8,7 @@ func stub(name string) func() (string, error) {
 
 var (
 	genExpand    = genExpandReal
-	genAccepted  = stub("G7")
+	genAccepted  = genAcceptedReal
 	genWriteTgz  = stub("G8")
 	genDropped   = stub("G9")
 	genClock     = stub("G10")
